@@ -44,6 +44,22 @@ except:
     Decimal = type(None)
 
 
+def _exact_cast(x, y, n_bits):
+    """
+    Returns the cast to apply to the raw values of `x` and `y` before an integer calculation whose
+    result needs `n_bits` bits (two's complement): int64 while it fits (mixing int64 and uint64 arrays
+    would silently give float64, and int64 wraps beyond 64 bits), python integers (object) otherwise.
+    """
+    if x.vdtype == complex or y.vdtype == complex:
+        return lambda m: m
+    if n_bits >= _n_word_max:
+        return lambda m: np.array(m, dtype=object)
+    return lambda m: np.asarray(m).astype(np.int64)
+
+def _signed_len(x, shift=0):
+    # bits of the two's complement representation of the raw value of x shifted left by shift bits
+    return x.n_word + (0 if x.signed else 1) + max(0, shift)
+
 def _get_sizing(vars, sizing, method, optimal_size=None):
         if not isinstance(vars, list):
             vars = [vars]
@@ -315,8 +331,8 @@ def add(x, y, out=None, out_like=None, sizing='optimal', method='raw', **kwargs)
     """
     """
     def _add_raw(x, y, n_frac):
-        precision_cast = (lambda m: np.array(m, dtype=object)) if n_frac >= _n_word_max else (lambda m: m)
-        return x.val * precision_cast(2**(n_frac - x.n_frac)) + y.val * precision_cast(2**(n_frac - y.n_frac))
+        raw_cast = _exact_cast(x, y, max(_signed_len(x, n_frac - x.n_frac), _signed_len(y, n_frac - y.n_frac)) + 1)
+        return raw_cast(x.val) * 2**(n_frac - x.n_frac) + raw_cast(y.val) * 2**(n_frac - y.n_frac)
 
     if not isinstance(x, Fxp):
         x = Fxp(x)
@@ -336,8 +352,8 @@ def sub(x, y, out=None, out_like=None, sizing='optimal', method='raw', **kwargs)
     """
     """
     def _sub_raw(x, y, n_frac):
-        precision_cast = (lambda m: np.array(m, dtype=object)) if n_frac >= _n_word_max else (lambda m: m)
-        return x.val * precision_cast(2**(n_frac - x.n_frac)) - y.val * precision_cast(2**(n_frac - y.n_frac))
+        raw_cast = _exact_cast(x, y, max(_signed_len(x, n_frac - x.n_frac), _signed_len(y, n_frac - y.n_frac)) + 1)
+        return raw_cast(x.val) * 2**(n_frac - x.n_frac) - raw_cast(y.val) * 2**(n_frac - y.n_frac)
 
     if not isinstance(x, Fxp):
         x = Fxp(x)
@@ -357,9 +373,8 @@ def mul(x, y, out=None, out_like=None, sizing='optimal', method='raw', **kwargs)
     """
     """
     def _mul_raw(x, y, n_frac):
-        precision_cast = (lambda m: np.array(m, dtype=object)) if n_frac >= _n_word_max else (lambda m: m)
-        raw_cast = (lambda m: np.array(m, dtype=object)) if (x.n_word + y.n_word) >= _n_word_max else (lambda m: m)
-        return raw_cast(x.val) * raw_cast(y.val) * precision_cast(2**(n_frac - x.n_frac - y.n_frac))
+        raw_cast = _exact_cast(x, y, _signed_len(x) + _signed_len(y, n_frac - x.n_frac - y.n_frac))
+        return raw_cast(x.val) * raw_cast(y.val) * 2**(n_frac - x.n_frac - y.n_frac)
 
     if not isinstance(x, Fxp):
         x = Fxp(x)
